@@ -917,7 +917,7 @@ def translate_conjunction(formulas, add_formula):
     add_formula -- Callback to add resulting formuals.
     """
     if len(formulas) == 0:
-        return BooleanConstant(True)
+        return add_formula(BooleanConstant(True))
 
     formulas.sort(key=lambda x: x._rep)
     formula = formulas[0]
